@@ -1,6 +1,7 @@
 (* C10 — evaluators for the generated case files.  One module per harness stage:
      FS  sdk/go/arvados   (Collection.FileSystem, directory walk + reads, MarshalManifest, PortableDataHash, SizedDigests)
-     GM  sdk/go/manifest  (StreamIter + FileSegmentIterByName, Extract, EscapeName/UnescapeName; child process)
+     GM  sdk/go/manifest  (StreamIter + FileSegmentIterByName, Extract, BlockIterWithDuplicates + Manifest.Err,
+                           Manifest.FileSegmentIterByName, EscapeName/UnescapeName; child process)
      PY  sdk/python       (locators_and_ranges, normalize_stream, escape under python3)
    spec_b judges the IMPLEMENTATION's observations against the reference of C10_manifest.v (never against the codec
    models); model_b compares the codec model with the observation.
@@ -142,18 +143,25 @@ End FS.
 
 (* ======================================================================================================= *)
 Module GM.
-Inductive gop := OpIter | OpExtract (src reloc : string) | OpEsc (name : string).
+Inductive gop := OpIter | OpExtract (src reloc : string) | OpEsc (name : string)
+| OpBlocks                                 (* drain BlockIterWithDuplicates, then read Manifest.Err *)
+| OpFileSegs (path : string).              (* drain Manifest.FileSegmentIterByName(path) *)
 Inductive gobs :=
 | ObsIter (l : list (string * list seg))   (* per stream without Err, per file token: StreamName/name, segments *)
 | ObsText (t : string)                     (* Extract(...).Text, Err == nil *)
 | ObsErr                                   (* Extract(...).Err != nil *)
 | ObsPanic                                 (* the child process died *)
-| ObsEsc (e u : string).                   (* EscapeName(name), UnescapeName(name) *)
+| ObsEsc (e u : string)                    (* EscapeName(name), UnescapeName(name) *)
+| ObsBlocks (l : list (string * N * string)) (err : bool)   (* delivered blocks (digest, size, hints); m.Err != nil *)
+| ObsSegs (l : list seg).                  (* delivered file segments *)
 (* one manifest, several operations on it, each with what the implementation did *)
 Record case := { c_kind : N; c_txt : string; c_ops : list (gop * gobs) }.
 
 Definition iter_eqb (a b : list (string * list seg)) : bool :=
   list_eqb (fun x y => String.eqb (fst x) (fst y) && list_eqb seg_eqb (snd x) (snd y)) a b.
+
+Definition blocks_eqb (a b : list (string * N * string)) : bool :=
+  list_eqb (fun x y => let '(d, n, h) := x in let '(d', n', h') := y in String.eqb d d' && (n =? n')%N && String.eqb h h') a b.
 
 Definition model_op (txt : string) (seg : outcome smanifest) (x : gop * gobs) : bool :=
   match fst x with
@@ -174,16 +182,32 @@ Definition model_op (txt : string) (seg : outcome smanifest) (x : gop * gobs) : 
       | Panic, ObsPanic => true
       | _, _ => false
       end
+  | OpBlocks =>
+      match gm_blocks txt, snd x with
+      | Unmodelled, _ => true
+      | Ok (l, e), ObsBlocks l' e' => blocks_eqb l' l && Bool.eqb e' e
+      | Panic, ObsPanic => true
+      | _, _ => false
+      end
+  | OpFileSegs path =>
+      match gm_file_segs txt path, snd x with
+      | Unmodelled, _ => true
+      | Ok l, ObsSegs l' => list_eqb seg_eqb l' l
+      | Panic, ObsPanic => true
+      | _, _ => false
+      end
   end.
 Definition model_b (c : case) : bool :=
   let seg := gm_segment (c_txt c) in forallb (model_op (c_txt c) seg) (c_ops c).
 
 Definition is_panic (o : gobs) : bool := match o with ObsPanic => true | _ => false end.
-(* no_panic; and malformed (some non-blank line is not well-formed) => Extract reports an error *)
+(* no_panic; and malformed (some non-blank line is not well-formed) => Extract reports an error, and so does
+   BlockIterWithDuplicates (through Manifest.Err, whichever line is the damaged one) *)
 Definition robust_op (wf : bool) (x : gop * gobs) : bool :=
   negb (is_panic (snd x)) &&
   match fst x with
   | OpExtract _ _ => wf || match snd x with ObsErr => true | _ => false end
+  | OpBlocks => wf || match snd x with ObsBlocks _ e => e | _ => false end
   | _ => true
   end.
 Definition spec_robust (c : case) : bool :=
@@ -217,6 +241,15 @@ Definition valid_op (m : manifest) (x : gop * gobs) : bool :=
         match o with ObsText out => extract_ok m src reloc out | _ => false end
       else true
   | OpEsc _, _ => true
+  (* valid manifest: no error, and exactly the block tokens of the text, in order (hash and size) *)
+  | OpBlocks, ObsBlocks l e =>
+      negb e && forall2b (fun x b => let '(d, n, _) := x in String.eqb d (loc_hash b) && (n =? loc_size b)%N) l (flat_map s_blocks m)
+  | OpBlocks, _ => false
+  (* valid manifest, canonical path: the non-empty segments are the reference denotation of the path *)
+  | OpFileSegs path, o =>
+      if valid_stream_name_u path then
+        match o with ObsSegs l => list_eqb seg_eqb (filter seg_nonempty l) (denote m path) | _ => false end
+      else true
   end.
 Definition spec_valid (c : case) : bool :=
   if negb (valid_manifest (c_txt c)) then true else
